@@ -75,7 +75,7 @@ pub fn materialize(c: &Content) -> Vec<u8> {
 }
 
 fn content_strategy(max: usize) -> BoxedStrategy<Content> {
-    let len = prop_oneof![4 => 0usize..300, 3 => 300usize..5_000, 2 => 5_000usize..=max.min(70_000), 1 => (max / 2)..=max, 1 => prop::sample::select(vec![1usize, 63, 64, 127, 128, 16383, 16384, 32767, 32768, 65535, 65536])];
+    let len = prop_oneof![4 => 0usize..300, 3 => 300usize..5_000, 2 => 5_000usize..=max.min(70_000), 1 => (max / 2)..=max, 1 => prop::sample::select(vec![1usize, 63, 64, 127, 128, 16383, 16384, 32767, 32768, 65535, 65536]), 2 => prop_oneof![100usize..140, 16_360usize..16_400]];
     let leaf = prop_oneof![
         1 => Just(Content::Empty),
         3 => (len.clone(), any::<u64>()).prop_map(|(len, seed)| Content::Random { len, seed }),
@@ -151,7 +151,32 @@ pub fn check_c16(c: &ZCase, acc: &mut Acc, record: bool) -> Verdict {
     sc.write_compressed(&d, level).unwrap();
     let scv = sc.into_output();
     if v != bm[..] || v != scv {
-        return Verdict::Fail(format!("sinks disagree on the frame of {} bytes at level {}", d.len(), c.level));
+        let at = v.iter().zip(bm.iter()).position(|(a, b)| a != b).or_else(|| v.iter().zip(scv.iter()).position(|(a, b)| a != b));
+        return Verdict::Fail(format!("sinks disagree on the frame of {} bytes at level {}: Vec {} bytes, BytesMut {} bytes, context {} bytes, first difference at {at:?}", d.len(), c.level, v.len(), bm.len(), scv.len()));
+    }
+    // a BytesMut that already holds data, and the size calculator (bare and behind a context); the writer-side extras
+    // run on the cases that carry no fault (their subject is the frame, not what happens to it afterwards)
+    let writer_extras = c.fault == Fault::None;
+    let mut bm2 = BytesMut::from(&b"prefix"[..]);
+    if !writer_extras {
+        bm2.extend_from_slice(&v);
+    } else {
+        bm2.write_compressed(&d, level).unwrap();
+    }
+    if bm2[6..] != v[..] {
+        return Verdict::Fail(format!("a BytesMut that already holds 6 bytes writes another frame for {} bytes at level {} than an empty Vec does", d.len(), c.level));
+    }
+    let (s1, s2) = if writer_extras {
+        let mut calc = desert::SizeCalculator::new();
+        calc.write_compressed(&d, level).unwrap();
+        let mut calc_ctx = SerializationContext::new(desert::SizeCalculator::new());
+        calc_ctx.write_compressed(&d, level).unwrap();
+        (calc.size(), calc_ctx.into_output().size())
+    } else {
+        (v.len(), v.len())
+    };
+    if s1 != v.len() || s2 != v.len() {
+        return Verdict::Fail(format!("SizeCalculator reports {s1} (bare) / {s2} (behind a context) bytes for a frame of {} bytes ({} content bytes, level {})", v.len(), d.len(), c.level));
     }
     // ---- frame == varint(len d) ++ varint(len z) ++ z, z inflating (independently) to d
     let h1 = var_u32_bytes(d.len() as u32);
@@ -213,11 +238,13 @@ pub fn check_c16(c: &ZCase, acc: &mut Acc, record: bool) -> Verdict {
     // ---- the frame written and read through a context that is inside a record: as a field of a version-0 record
     // (straight to the output) and of an evolved record (the field's chunk is buffered and the header written first),
     // between sibling fields and before data that follows the record
-    if let Err(e) = embedded_frames(&d, level, &v) {
-        return Verdict::Fail(format!("{e} (content {} bytes, level {})", d.len(), c.level));
-    }
-    if record {
-        acc.bump("frames_embedded_in_records", 2);
+    if writer_extras {
+        if let Err(e) = embedded_frames(&d, level, &v) {
+            return Verdict::Fail(format!("{e} (content {} bytes, level {})", d.len(), c.level));
+        }
+        if record {
+            acc.bump("frames_embedded_in_records", 3);
+        }
     }
     // ---- faults
     match &c.fault {
@@ -311,6 +338,41 @@ fn embedded_frames(d: &[u8], level: Compression, frame: &[u8]) -> Result<(), Str
     let v0 = AdtMetadata::new(vec![Evolution::InitialVersion]);
     let v2 = AdtMetadata::new(vec![Evolution::InitialVersion, Evolution::FieldAdded { name: "z".into() }, Evolution::FieldAdded { name: "t".into() }]);
     let e = |x: desert::Error| format!("{x:?}");
+    // the block between two siblings INSIDE one chunk of an evolved record (chunk 0; "q" alone is in chunk 1)
+    {
+        let v1 = AdtMetadata::new(vec![Evolution::InitialVersion, Evolution::FieldAdded { name: "q".into() }]);
+        let mut ctx = SerializationContext::new(vec![0xC3, 0x3C]);
+        {
+            let mut ser = AdtSerializer::new(&v1, &mut ctx);
+            ser.write_field("a", &0x1234u16).map_err(e)?;
+            ser.write_field("z", &ZBlob(d, level)).map_err(e)?;
+            ser.write_field("t", &0x77u8).map_err(e)?;
+            ser.write_field("q", &0x99u8).map_err(e)?;
+            ser.finish().map_err(e)?;
+        }
+        let bytes = ctx.into_output();
+        let mut want = vec![0xC3, 0x3C, 1];
+        vmodel::refcodec::var_i32(3 + frame.len() as i32, &mut want);
+        vmodel::refcodec::var_i32(1, &mut want);
+        want.extend_from_slice(&[0x12, 0x34]);
+        want.extend_from_slice(frame);
+        want.extend_from_slice(&[0x77, 0x99]);
+        if bytes != want {
+            return Err(format!("a compressed block written between two siblings of one chunk is not laid out as header ++ chunks ({} bytes against {})", bytes.len(), want.len()));
+        }
+        let mut dc = DeserializationContext::new(&bytes);
+        dc.read_u8().map_err(e)?;
+        dc.read_u8().map_err(e)?;
+        let stored = dc.read_u8().map_err(e)?;
+        let mut de = AdtDeserializer::new(&v1, &mut dc, stored).map_err(e)?;
+        let a: u16 = de.read_field("a", None).map_err(e)?;
+        let z: ZOwned = de.read_field("z", None).map_err(|x| format!("the compressed block inside a chunk could not be read: {x:?}"))?;
+        let t: u8 = de.read_field("t", None).map_err(|x| format!("the sibling after a compressed block in the same chunk could not be read: {x:?}"))?;
+        let q: u8 = de.read_field("q", None).map_err(e)?;
+        if a != 0x1234 || z.0 != d || t != 0x77 || q != 0x99 {
+            return Err(format!("a compressed block between two siblings of one chunk: siblings read back as {a:#x} {t:#x} {q:#x}, {} content bytes", z.0.len()));
+        }
+    }
     for evolved in [false, true] {
         let mut ctx = SerializationContext::new(Vec::new());
         {
